@@ -26,6 +26,20 @@ def run(tier, seed, replay=None):
         n = 4000 if tier == "quick" else 250000
         sources = [b"", b"#", b"# c", b"\n", b"\xff", b"x", b"LDAC", b"OPR", b"DATA -", b"FUNC", b"LDAC -2147483648",
                    b"BR x", b"x x BR x", b"LDAM x OPR ADD x OPR SVC"] + shipped[:4]
+        # every mnemonic as the operand of OPR; every directive cut off at end of file, with and without a trailing newline
+        for m in G.ALL + G.OPR + ["OPR", "DATA", "FUNC", "PROC", "x", "7", "-", "-7"]:
+            sources += [f"LDAC 1\nOPR {m}\n".encode(), f"OPR {m}".encode(), f"LDAC 1\nLDAC 2\nLDAC 3\nLDAC 4\nLDAC 5\n{m}".encode(),
+                        f"x\nBR x\n{m} ".encode(), f"{m} {m}\n".encode(), f"{m} -\n".encode(), f"{m} - {m}\n".encode()]
+        # long tokens, many labels, duplicate and DATA-only labels, numbers of many digits
+        for k in (64, 255, 256, 1000, 5000):
+            lab = "L" * k
+            sources += [f"{lab}\nBR {lab}\n".encode(), f"BR {lab}\n".encode(), f"LDAC {'9' * k}\n".encode(), f"DATA -{'9' * k}\n".encode(),
+                        ("\n".join(f"l{i}" for i in range(k)) + "\nOPR SVC\n").encode(),
+                        ("\n".join(f"l{i}\nBR l{(i * 7) % k}" for i in range(min(k, 1000))) + "\n").encode(),
+                        ("x\n" * k + "BR x\n").encode(), ("#" + "c" * k).encode(), ("#" + "c" * k + "\nOPR SVC").encode()]
+        sources += [b"x\nx\nBR x\n", b"x\nDATA 1\nx\nDATA 2\nLDAM x\n", b"d\nDATA 5\nBR d\n", b"d\nDATA 5\nLDAM d\nLDAC d\nLDAP d\n",
+                    b"FUNC\n", b"PROC\n", b"FUNC 5\n", b"FUNC f\nFUNC f\nBR f\n", b"PROC p\n", b"FUNC f\n", b"a\nb\nc\n", b"a", b"a b c",
+                    b"LDAC - 5\n", b"LDAC --5\n", b"LDAC -\n5\n", b"DATA\n", b"DATA x\n", b"DATA - x\n", b"\x00", b"LDAC 1\x00\n", b"LDAC\x001\n"]
         sources += [G.malformed(r, shipped) for _ in range(n)]
     recs = A.assemble_all(h, drv, sources, want_tokens=True)
     cls = Counter()
